@@ -261,6 +261,19 @@ def F28():
     return None
 
 
+def F13t():
+    """C07: the network thread (re)connects while an application thread publishes: publish() sees the new socket
+    (`self._sock` is assigned before CONNECT is queued) and its PUBLISH is queued - and written - ahead of CONNECT."""
+    from streams.threads import check, run_scenario
+    for seed in (7, 8, 9, 11, 12, 13):
+        line = f"thr seed={seed} policy=random sw=0.3 msgs=0,1;1 N=20 early=0 proto=4 conn=async drop=0 part=0"
+        o = run_scenario(line)
+        bad = [d for c, d in check(o, line) if c == "connect-not-first"]
+        if bad:
+            return f"seed {seed}: {bad[0]}"
+    return None
+
+
 def F27():
     """C01: a QoS 1 message accepted while disconnected (MQTT_ERR_NO_CONN) is sent and acknowledged after connecting,
     on_publish fires - but its MQTTMessageInfo keeps raising in is_published()/wait_for_publish()."""
@@ -531,7 +544,7 @@ def F18():
 
 
 ALL = {"F1": F1, "F2": F2, "F3": F3, "F4": F4, "F4b": F4b, "F5": F5, "F6": F6, "F7": F7, "F8": F8, "F9": F9,
-       "F10": F10, "F19": F19, "F20": F20, "F21": F21, "F22": F22, "F23": F23, "F24": F24, "F25": F25, "F26": F26, "F29": F29, "F27": F27, "F28": F28, "F11": F11, "F12": F12, "F13": F13, "F15": F15, "F16": F16, "F17": F17, "F18": F18}
+       "F10": F10, "F19": F19, "F20": F20, "F21": F21, "F22": F22, "F23": F23, "F24": F24, "F25": F25, "F26": F26, "F29": F29, "F27": F27, "F28": F28, "F11": F11, "F12": F12, "F13": F13, "F13t": F13t, "F15": F15, "F16": F16, "F17": F17, "F18": F18}
 
 
 def run(name):
